@@ -279,16 +279,18 @@ def thin(on, stride):
 
 
 def unfold_axis_map(n, on_plane):
-    """For the low half of a doubled axis: list of source indices j (into the kept half) for full index 0..n-1.
+    """For the low half of a doubled axis: list of (source index j into the kept half, parity applies?) for full
+    index 0..n-1.
 
     Half-cell-offset samples mirror one-to-one (full n-1-j <-> kept j). Samples on the plane pair as m +- j
-    (full n-j <-> kept j, j=1..n-1); the outermost one has no partner and repeats its neighbour."""
+    (full n-j <-> kept j, j=1..n-1); the outermost one has no partner and repeats its neighbour (so with a single
+    kept row it repeats that row, which is the plane itself)."""
     if not on_plane:
-        return [n - 1 - I for I in range(n)]
+        return [(n - 1 - I, True) for I in range(n)]
     m = [None] * n
     for j in range(1, n):
-        m[n - j] = j
-    m[0] = m[1] if n > 1 else 0
+        m[n - j] = (j, True)
+    m[0] = m[1] if n > 1 else (0, False)
     return m
 
 
@@ -304,10 +306,16 @@ def unfold_matrix(shape, axis_specs):
     for ax in sorted(axis_specs):
         s, on_plane = axis_specs[ax]
         n = idx.shape[ax]
-        jmap = unfold_axis_map(n, on_plane)
+        amap = unfold_axis_map(n, on_plane)
+        jmap = [j for j, _ in amap]
+        use = np.array([1.0 if u else 0.0 for _, u in amap])
         s_full = np.broadcast_to(np.asarray(s, dtype=np.float64), sgn.shape) if np.ndim(s) else np.full(sgn.shape, float(s))
+        shp = [1] * sgn.ndim
+        shp[ax] = n
         low_idx = np.take(idx, jmap, axis=ax)
-        low_sgn = np.take(sgn * s_full, jmap, axis=ax)
+        par = np.take(s_full, jmap, axis=ax) if s_full.shape[ax] == n else s_full
+        par = par * use.reshape(shp) + (1.0 - use.reshape(shp))
+        low_sgn = np.take(sgn, jmap, axis=ax) * par
         idx = np.concatenate([low_idx, idx], axis=ax)
         sgn = np.concatenate([low_sgn, sgn], axis=ax)
     M = np.zeros((idx.size, n_in))
